@@ -108,7 +108,8 @@ def run(prop_id, tier, seed, replay=None):
             c = mod.canary(json.loads(json.dumps(r)), crng)
             if c is not None:
                 canaries.append(c)
-    if not canaries and not replay and len(bad) < len(flat):
+    if not canaries and not replay and not bad:
+        # (when records already fail, the validator is evidently not vacuous and the failures are reported)
         raise MachineryError('no canary could be built')
     if canaries:
         cparts = [c if isinstance(c, list) else [c] for c in canaries]
